@@ -1,4 +1,10 @@
 TEXT = {
+    "C03": {
+        "level": "Machine-checked proof (Coq): for every method and every upstream header set, if the model of the cache middleware's storage decision stores a response with lifetime T then the method is GET/HEAD, no Set-Cookie line exists, no Cache-Control token over all lines is named no-cache/no-store/private (ASCII case-insensitive), T>0 and T = n - max(0,Age) with n the first s-maxage (else first max-age) token's saturated value; status codes are not an input and other headers are irrelevant (frame theorem). The model (regexes as string scanners incl. Go's (?i) fold of U+017F, strconv.Atoi saturation, Header.Get/Values) is tied to the code per run by pinning the three regex literals regenerated from server/proxy.go and by differential runs of the real getCacheMaxAge on generated header sets; the token-level monitor also runs on the implementation's answers. System-level parts (label truthful, forwarded once) are proved over the entry-protocol model under C01/C02's check.",
+        "note": "Trusted: Coq kernel + vm_compute; hand-written model of getCacheMaxAge/requestIsPass (tied by correspondence); Go regexp and strconv semantics as modelled; net/http canonical header keys. No axioms.",
+        "technique": "Coq proof: soundness of the storage-decision model w.r.t. an independent token-level spec (substring/split lemmas); per-run regex-literal pins; vm_compute differential replay + spec monitor on impl answers",
+        "design_ref": "DESIGN.md §7 C03",
+    },
     "C11": {
         "level": "Machine-checked proof (Coq): for every key type, hash function, configured size S>=1 and every sequence of lookups/removals the number of resident entries of the dispatcher model is <= S; a miss on a full shard drops exactly the back of the recency-ordered list; a non-resident key gets a fresh entry. The model is tied to the code on every run by regenerating NewDispatcher's constants and the one-slot floor from the source (per-run obligations) and by replaying generated op sequences on the real dispatcher vs the model (entry identity and resident count after every op).",
         "note": "Trusted: Coq kernel + vm_compute; hand-written model of groupcache/lru and cache/dispatcher.go (tied by correspondence, not verified); go/ast constant extractor; per-shard mutex gives atomic ops; memory footprint not modelled. No axioms (Print Assumptions: closed under the global context).",
